@@ -127,7 +127,7 @@ fn check(text: &str, case: &str, before: usize, rep: &mut Report) {
             rep.nontrivial(text);
         }
         rep.distinct("message_shapes", &msg.split('`').step_by(2).collect::<Vec<_>>().join("_"));
-        if rep.samples.len() < 6 && before > 0 {
+        if rep.samples.is_empty() || (rep.samples.len() < 6 && before > 0) {
             rep.sample(J::obj(vec![("input", J::s(text)), ("failure", J::s(format!("{:?}", failure))), ("message", J::s(&msg))]));
         }
     } else {
@@ -141,7 +141,7 @@ fn check(text: &str, case: &str, before: usize, rep: &mut Report) {
 pub fn run(ctx: &Ctx, rep: &mut Report) {
     let kws: Vec<&spec::Kw> = VOCAB.iter().filter(|k| arity(k.lang) > 0).collect();
     let nk = kws.len() as u64;
-    let per = ctx.pick(12 * 12, 12 * 200);
+    let per = ctx.pick(12 * 12, 12 * 4000);
     par_cases(ctx, "args", nk * per, rep, |i, rep| {
         let kw = kws[(i % nk) as usize];
         let mut r = Rng::for_case(ctx.seed, "args", i);
@@ -200,7 +200,7 @@ pub fn run(ctx: &Ctx, rep: &mut Report) {
         let text = parts.join(" ");
         check(&text, &format!("args:{}", i), before, rep);
     });
-    let n_unknown = ctx.pick(3000, 200_000);
+    let n_unknown = ctx.pick(3000, 3_000_000);
     par_cases(ctx, "unknown", n_unknown, rep, |i, rep| {
         let mut r = Rng::for_case(ctx.seed, "unknown", i);
         let w = match r.below(6) {
